@@ -114,3 +114,10 @@ Theorem C01_step_order_downsample_or_filter : StepsC01.downsample_or_filter =
 Proof. reflexivity. Qed.
 Print Assumptions C01_step_order_downsample_or_filter.
 
+(* ---- body frame (added after every property had a check): the rotation-angle APE is unchanged when every pose of both
+   trajectories is right-multiplied by one rigid T (a change of the body-frame convention) ---- *)
+Theorem C01_rotation_angle_independent_of_body_frame : forall rel (t : PoseR) (ref est : list PoseR),
+  Forall (fun p => Orth (prot p)) est -> Orth (prot t) -> rel = rotation_angle_rad \/ rel = rotation_angle_deg ->
+  apeR rel (map (fun p => pmul p t) ref) (map (fun p => pmul p t) est) = apeR rel ref est.
+Proof. exact ape_rotation_angle_body_frame_invariant_traj. Qed.
+Print Assumptions C01_rotation_angle_independent_of_body_frame.
